@@ -89,6 +89,10 @@ func (g *GroupMod) MarshalBinary() (data []byte, err error) {
 	data = append(data, bytes...)
 
 	for _, bkt := range g.Buckets {
+		if g.Command == OFPGC_DELETE {
+			// Len() and the header length exclude buckets for the delete command
+			break
+		}
 		bytes, err = bkt.MarshalBinary()
 		data = append(data, bytes...)
 		log.Debugf("Groupmod bucket: %v", bytes)
